@@ -132,6 +132,9 @@ def crash_record(plan, code, err):
     vs = [v]
     if cls == "panic":
         vs.append(dict(v, property="C18"))
+    if cls in ("panic", "wedge") and plan.get("property") not in ("C09", "C18", None):
+        # the run of that property's own plan did not complete: its own check fails too
+        vs.append(dict(v, property=plan["property"]))
     return {"run": plan.get("run", -1), "reason": "crash", "violations": vs, "steps": 0, "virtual_ns": 0, "sig": "crash", "states": 0, "requests": 0, "wall_us": 0}
 
 
@@ -146,7 +149,7 @@ def panic_where(txt):
     for l in lines[start:]:
         l = l.strip()
         if l.startswith("github.com/pion/turn/v5") and "verifsim" not in l and "simsync" not in l:
-            return l.split("(")[0].replace("github.com/pion/turn/v5", "turn")
+            return l[:l.rfind("(")].replace("github.com/pion/turn/v5", "turn")
     return "unknown"
 
 
